@@ -409,7 +409,7 @@ class UnidirectionalUnifier(UnifierBase):
                     if len(non_var_children) != 0:
                         # urecs was merged in.
                         yield result
-                        return
+                        continue
                     # urecs was not merged in, do it here.
                     yield from unify_many(urecs, result)
 
